@@ -154,10 +154,12 @@ def upqStep (amask qmask pmask : Nat) (nas : Nas) (rec : Nat → Except Err (Lis
     if qup.any id then upqWrite nas sedn usetdn pv qup dnids maps
     else pure pv
 
-/-- `upqsetpv(nas, sedn)`; `fuel` bounds the recursion up the superelement tree (the real code
-recurses without a bound; on a tree the depth is below the number of `selist` rows). -/
+/-- `upqsetpv(nas, sedn)`; `fuel` bounds the recursion up the superelement tree.  The real code
+recurses without a bound: on a `selist` without cycles `selist.length + 1` levels are never used
+up (`upqsetpv_fuel_suffices`), on a cyclic one the real code ends in Python's `RecursionError`
+and the model, at every fuel, in `.error .recursion` (`upqsetpv_cycle_diverges`). -/
 def upqsetpv (amask qmask pmask : Nat) (nas : Nas) : Nat → Nat → Except Err (List Bool)
-  | 0, _ => .error .value
+  | 0, _ => .error .recursion
   | fuel + 1, sedn =>
       let ups := (nas.selist.filter fun r => r.2 = sedn).map (·.1)
       if ups = [] then .error .value
@@ -165,5 +167,45 @@ def upqsetpv (amask qmask pmask : Nat) (nas : Nas) : Nat → Nat → Except Err 
         let usetdn ← lookupD nas.uset sedn
         ups.foldlM (upqStep amask qmask pmask nas (upqsetpv amask qmask pmask nas fuel) sedn usetdn)
           (List.replicate usetdn.length false)
+
+/-! ### the connection of one `selist` row (used to state what `upqsetpv` computes) -/
+
+/-- the places of the downstream vector that receive, in this order, the flags of the a-set DOF of
+one upstream SE: the boundary rows (`upMask`: through `dnids`, or `upids`), re-ordered by `maps`
+when it has one entry per boundary row, unchanged when `maps` is empty or strictly increasing of
+another length (`upqWrite_eq`: this is the index vector of the assignment `pv[...] = qup`). -/
+def upqIdx (nas : Nas) (sedn : Nat) (usetdn : List Row) (dnids : List Nat) (maps : List (Int × Int)) :
+    Except Err (List Nat) := do
+  let m ← upMask nas sedn usetdn dnids
+  let upA := positions m
+  if maps = [] then .ok upA
+  else if maps.any (fun r => r.2 ≠ 1) then .error .value
+  else
+    let mp := maps.map (·.1)
+    if mp.length = upA.length then take upA mp
+    else if diffsPos mp then .ok upA
+    else .error .value
+
+/-- `upqIdx` for the `selist` row `r = (seup, sedn)`; `none` for a row that names an SE as its own
+downstream (skipped by the loop) and when a dictionary entry is missing or inconsistent -/
+def linkIdx (nas : Nas) (r : Nat × Nat) : Option (List Nat) :=
+  if r.1 = r.2 then none
+  else match lookupD nas.uset r.2, lookupD nas.dnids r.1, lookupD nas.maps r.1 with
+    | .ok usetdn, .ok dnids, .ok maps =>
+        (match upqIdx nas r.2 usetdn dnids maps with | .ok idx => some idx | .error _ => none)
+    | _, _, _ => none
+
+/-- the rows of a table that are in the a-set, in table order (`mksetpv(uset, "p", "a").nonzero()`
+when every row is in the p-set) -/
+def aRows (amask : Nat) (tbl : List Row) : List Nat := positions (tbl.map fun r => inSet r.2.2 amask)
+
+/-! ### `_findse` -/
+
+/-- `_findse(nas, se)`: the first row of `selist` whose first column is `se` (`ValueError` when
+there is none) -/
+def findse (selist : List (Nat × Nat)) (se : Nat) : Except Err Nat :=
+  match positions (selist.map fun r => decide (r.1 = se)) with
+  | [] => .error .value
+  | r :: _ => .ok r
 
 end PyYetiVerif.Uset
